@@ -1,4 +1,4 @@
-CONSTANTS CiStart = 14 K = 39 NP = 3 Sizes = {1, 8, 31, 33, 70} Fills = {0, 1} MaxBlocks = 2 Faults = {"err1", "err2"} Units = {"mrag0", "mrag1", "pgu", "pgt", "s1", "s2", "s3", "s4", "c1", "c2", "bp", "bs", "fill", "sh"} Policies = {"strict"} UnitBlocks = 2 TailCheck = TRUE Foreign = {"none", "page", "stream", "mag"} TailAtForeign = TRUE
+CONSTANTS CiStart = 14 K = 39 NP = 3 Sizes = {1, 8, 31, 33, 70} Fills = {0, 1} MaxBlocks = 2 Faults = {"err1", "err2"} Units = {"mrag0", "mrag1", "pgu", "pgt", "s1", "s2", "s3", "s4", "c1", "c2", "bp", "bs", "fill", "sh"} Policies = {"strict"} UnitBlocks = 2 TailCheck = TRUE Foreign = {"none", "page", "stream", "mag"} TailAtForeign = TRUE Noise = {0} NoisePos = {"all"} NoiseFaults = {"none"}
 SPECIFICATION GLeapSpec
 CONSTRAINT Dump
 INVARIANTS Sound Complete Resume
